@@ -137,3 +137,30 @@ package builder
 //@   ensures {C06,C07,C05} err == nil && (is(a, gmodel.SimpleField) || isNoMatch(a, bmodel.assignExpr(lhs)))
 //@   ensures {C06} is(a, gmodel.SimpleField) ==> as(a, gmodel.SimpleField).LHS == bmodel.assignExpr(lhs)
 //@   check {C06,C07,C02,C01} is(a, gmodel.SimpleField) ==> mappedNode != nil && as(a, gmodel.SimpleField).RHS == bmodel.assignExpr(mappedNode) && as(a, gmodel.SimpleField).Error == bmodel.returnsError(mappedNode) && assignable(bmodel.exprType(mappedNode), bmodel.exprType(lhs))
+
+// ---- precedence of explicit notations (C06) ----------------------------------------------------------------------------------
+
+//@ spec path(lhs bmodel.Node) string = bmodel.matcherExpr(lhs)
+//@ spec noConv(o option.Options, p string, k int) bool = forall(j, 0, k, o.Converters[j].m.dst.pattern != p)
+//@ spec noMap(o option.Options, p string, k int) bool = forall(j, 0, k, o.NameMapper[j].dst.pattern != p)
+//@ spec noTMap(o option.Options, p string, k int) bool = forall(j, 0, k, o.TemplatedNameMapper[j].dst.pattern != p)
+//@ spec noLit(o option.Options, p string, k int) bool = forall(j, 0, k, o.Literals[j].dst.pattern != p)
+//@ spec convsReady(o option.Options) bool = forall(j, 0, len(o.Converters), convReady(o.Converters[j]))
+//@ spec templReady(o option.Options) bool = forall(j, 0, len(o.TemplatedNameMapper), len(o.TemplatedNameMapper[j].src.paths[0]) >= 1)
+//@ spec argsReady(args []bmodel.Node) bool = forall(i, 0, len(args), bmodel.wfNode(args[i]) && !bmodel.returnsError(args[i]))
+//@
+//@ func (*assignmentBuilder).matchStructFieldAndStruct(b, lhs, rhs, additionalArgs) (a, err)
+//@   requires wfB(b) && convsReady(b.opts) && templReady(b.opts) && bmodel.wfNode(lhs) && bmodel.wfNode(rhs) && plainPath(rhs) && argsReady(additionalArgs)
+//@   effects log
+//@   assigns all(option.PatternMatcher.re), all(option.PatternMatcher.exactCase)
+//@   ensures {C06,C05} option.shouldSkip(old(b.opts), path(lhs)) ==> a == box(gmodel.SkipField{LHS: bmodel.assignExpr(lhs)}) && err == nil
+//@   ensures option.skipInv(b.opts)
+//@   atcall createWithConverter: {C06} !option.shouldSkip(b.opts, path(lhs)) && converter.m.dst.pattern == path(lhs) && noConv(b.opts, path(lhs), $k)
+//@   atcall createWithMapper: {C06} !option.shouldSkip(b.opts, path(lhs)) && noConv(b.opts, path(lhs), len(b.opts.Converters)) && mapper.dst.pattern == path(lhs) && noMap(b.opts, path(lhs), $k)
+//@   atcall createWithTemplatedMapper: {C06} !option.shouldSkip(b.opts, path(lhs)) && noConv(b.opts, path(lhs), len(b.opts.Converters)) && noMap(b.opts, path(lhs), len(b.opts.NameMapper)) && mapper.dst.pattern == path(lhs) && noTMap(b.opts, path(lhs), $k)
+//@   atcall Literal: {C06} !option.shouldSkip(b.opts, path(lhs)) && noConv(b.opts, path(lhs), len(b.opts.Converters)) && noMap(b.opts, path(lhs), len(b.opts.NameMapper)) && noTMap(b.opts, path(lhs), len(b.opts.TemplatedNameMapper)) && setter.dst.pattern == path(lhs) && noLit(b.opts, path(lhs), $k)
+//@   atcall structFieldAndStructGettersAndFields: {C06,C04} !option.shouldSkip(b.opts, path(lhs)) && noConv(b.opts, path(lhs), len(b.opts.Converters)) && noMap(b.opts, path(lhs), len(b.opts.NameMapper)) && noTMap(b.opts, path(lhs), len(b.opts.TemplatedNameMapper)) && noLit(b.opts, path(lhs), len(b.opts.Literals))
+//@   loop 1 invariant $k <= len(b.opts.Converters) && noConv(b.opts, path(lhs), $k)
+//@   loop 2 invariant $k <= len(b.opts.NameMapper) && noMap(b.opts, path(lhs), $k)
+//@   loop 3 invariant $k <= len(b.opts.TemplatedNameMapper) && noTMap(b.opts, path(lhs), $k)
+//@   loop 4 invariant $k <= len(b.opts.Literals) && noLit(b.opts, path(lhs), $k)
